@@ -192,3 +192,42 @@ def attr_conflicts_3__excl(n0: int, n1: int, n2: int) -> bool:
     if _raw_class(names):
         return True
     return _props_ok(names)
+
+
+# ------------------------------------------------------------------------------------------------ attributes through allOf
+from openapi_python_client.parser.properties import build_schemas  # noqa: E402
+
+_NARROW = (
+    {"type": "string", "format": "date"},  # narrower kind: the merged property is rebuilt from the new declaration
+    {"type": "string", "description": "again"},  # same kind: the inherited property is kept
+    {"type": "string", "format": "date-time"},
+)
+
+
+def _allof_props_ok(names, redecl, narrow) -> bool:
+    comps = {
+        "Base": {"type": "object", "properties": {n: {"type": "string"} for n in names}},
+        "Child": {"allOf": [{"$ref": "#/components/schemas/Base"}, {"type": "object", "properties": {names[redecl]: _pick(_NARROW, narrow), "own": {"type": "integer"}}}]},
+    }
+    s = build_schemas(components={k: oai.Schema.model_validate(v) for k, v in comps.items()}, schemas=Schemas(), config=CFG)
+    child = s.classes_by_name.get(ClassName("Child", ""))
+    if child is None:
+        return len(s.errors) > 0  # rejected with a diagnostic
+    props = (child.required_properties or []) + (child.optional_properties or [])
+    if sorted(p.name for p in props) != sorted(set(names) | {"own"}):
+        return False
+    pys = [str(p.python_name) for p in props]
+    return all(_valid(p) for p in pys) and len(set(pys)) == len(pys)
+
+
+def attr_conflicts_allof__excl(n0: int, n1: int, redecl: int, narrow: int) -> bool:
+    """
+    A model composed with allOf that re-declares (narrows) an inherited property still has one distinct, valid
+    attribute per document property — also when a sibling differs from the re-declared name only in case/delimiters.
+    pre: 0 <= n0 < n1 < 11 and 0 <= redecl < 2 and 0 <= narrow < 3
+    post: _
+    """
+    names = [_pick(PROP_NAMES, n0), _pick(PROP_NAMES, n1)]
+    if _raw_class(names):
+        return True  # known finding C09-F6
+    return _allof_props_ok(names, redecl, narrow)
